@@ -96,6 +96,7 @@ SWEEP_TECH = ("symbolic execution of the real modules with z3 proxies (re-execut
 def sweep_prop(fatal, classes=None, passes=None, extra=None, trusted=None, technique=None):
     def jobs(tier):
         js = sweep_jobs(tier, classes, passes)
+        js += [j for j in suite_grid_jobs(tier) if classes is None or j["params"]["cls"] in classes]
         if extra:
             js += extra(tier)
         return js
@@ -185,7 +186,7 @@ PROPS["C18"] = {
     "bounds": lambda tier: {"emitted_actions": sweep_bounds(tier),
                             "constructed_pairs": "all 36 kind pairs; integer fields unbounded symbolic, "
                                                  "flags and storages enumerated",
-                            "repr/len/iter": "integer fields in 0..6 or sys.maxsize",
+                            "repr/len/iter": "integer fields in 0..6, sys.maxsize-1..sys.maxsize+1 or 2*sys.maxsize",
                             "membership": "n0, n1, x unbounded symbolic integers"},
     "outside": SWEEP_OUTSIDE + ["non-integer / non-StorageType arguments of constructed actions"],
     "trusted": ["z3"], "stubs": STUBS, "assumptions": [],
@@ -241,13 +242,23 @@ def c06_jobs(tier):
     jobs = sweep_jobs(tier, classes=("Mixed",))
     for n in range(1, (14 if q else 36) + 1):
         jobs.append(_job("mixed_planner", "n=%d" % n, {"n": n}, w=n))
+    if True:
+        # larger problems with few units: where truncated / pruned searches go wrong
+        for n in range(15 if q else 37, 131 if q else 201):
+            jobs.append(_job("mixed_planner", "n=%d/s<=12" % n, {"n": n, "smax": 12}, w=n * 3, deadline=3000))
+        for n in ((118,) if q else (60, 90, 118, 124, 150, 200)):
+            jobs.append({"harness": "stream", "name": "stream/Mixed/n=%d/s<=12" % n,
+                         "params": {"cls": "Mixed", "n": n, "passes": 1, "opts": {"smax": 12, "tag": "/s<=12"}},
+                         "weight": n * 3, "deadline": 3000})
     return jobs
 
 
 PROPS["C06"] = {
     "fatal": ["C06."], "jobs": c06_jobs,
     "bounds": lambda tier: {"streams": sweep_bounds(tier)["Mixed"],
-                            "planner": {"n": [1, 14 if tier == "quick" else 36], "s": "symbolic, unbounded"}},
+                            "planner": {"n": [1, 14 if tier == "quick" else 36], "s": "symbolic, unbounded"},
+                            "planner_large": {"n": [15, 130] if tier == "quick" else [37, 200], "s": [1, 12]},
+                            "streams_large": {"n": [118] if tier == "quick" else [60, 90, 118, 124, 150, 200], "s": [1, 12]}},
     "outside": ["n beyond the bounds", "that the recurrence of Maddison (2024) is the optimum over ALL schedules (trusted)"],
     "trusted": ["Maddison (2024) section 3: oracles.E_mix is a first-principles transcription", "z3"],
     "stubs": STUBS, "assumptions": [],
@@ -393,3 +404,34 @@ PROPS["C15"] = {
                  "certified by unsat); target stream compared with a fresh-interpreter baseline. Little solver leverage: "
                  "the inputs are discrete choices (stated in DESIGN.md section 7)",
 }
+
+
+# ---------------------------------------------------------------------------
+# the suite's own parameter grid through the monitor (validation of the reference
+# executor against the project's tests, DESIGN 3.1)
+
+def suite_grid_jobs(tier):
+    q = tier == "quick"
+    grid = [(1, (0,)), (2, (1,)), (3, (1, 2)), (5, (2,)), (10, tuple(range(2, 10)))]
+    if not q:
+        grid += [(100, tuple(range(1, 100, 7))), (250, (25, 125, 225))]
+    jobs = []
+
+    def add(cls, n, configs, p=1):
+        if configs:
+            jobs.append({"harness": "stream", "name": "suitegrid/%s/n=%d" % (cls, n),
+                         "params": {"cls": cls, "n": n, "passes": p, "opts": {"configs": configs, "tag": "/suitegrid"}},
+                         "weight": n * len(configs), "deadline": 3000})
+    for n, S in grid:
+        add("Multistage", n, [{"ram": 0, "disk": s, "trajectory": "maximum"} for s in S])
+        add("Mixed", n, [{"s": s, "storage": "DISK"} for s in S])
+        add("TwoLevel", n, [{"period": 2, "b": s, "storage": "RAM", "trajectory": "maximum"} for s in S])
+        add("HRevolve", n, [{"ram": s // 3, "disk": s - s // 3} for s in S if s // 3 >= 1 and s - s // 3 >= 1])
+        add("DiskRevolve", n, [{"ram": s} for s in S if s >= 1])
+        add("PeriodicDiskRevolve", n, [{"ram": s} for s in S if s >= 1])
+        add("Revolve", n, [{"ram": s} for s in S if s >= 1])
+        add("SingleDiskCopy", n, [{}])
+        add("SingleDiskMove", n, [{}])
+    return jobs
+
+
